@@ -115,14 +115,30 @@ func (w *walker) walk(v reflect.Value, depth int) {
 			return
 		}
 		w.mix(uint64(v.Len()))
+		// every entry is hashed on its own, starting from what had been seen when
+		// the map was reached: otherwise an object shared by several entries would
+		// be walked under whichever entry the (random) iteration order visits
+		// first, and the sum would differ from one evaluation to the next
 		var sum uint64
+		base := w.seen
+		union := map[uintptr]bool{}
 		it := v.MapRange()
 		for it.Next() {
-			sub := &walker{h: 0xcbf29ce484222325, seen: w.seen, collect: w.collect}
+			own := make(map[uintptr]bool, len(base))
+			for k := range base {
+				own[k] = true
+			}
+			sub := &walker{h: 0xcbf29ce484222325, seen: own, collect: w.collect}
 			sub.walk(it.Key(), depth+1)
 			sub.walk(it.Value(), depth+1)
 			sum += sub.h
 			w.ranges = append(w.ranges, sub.ranges...)
+			for k := range own {
+				union[k] = true
+			}
+		}
+		for k := range union {
+			w.seen[k] = true
 		}
 		w.mix(sum)
 	case reflect.Interface:
